@@ -564,6 +564,25 @@ func (b *Built) SetHonestTip(n *chaingen.Node, announce string) {
 	}
 }
 
+// AnnounceExtension moves the honest peers to the end of ext (consecutive
+// blocks on top of their current tip) and has them announce ALL of them in one
+// headers message, as a peer that was asked for direct header announcements
+// does.
+func (b *Built) AnnounceExtension(ext []*chaingen.Node) {
+	n := ext[len(ext)-1]
+	for _, sq := range b.Squats {
+		sq.View.SetTip(n)
+	}
+	for _, hp := range b.Honest {
+		hp.View.SetTip(n)
+	}
+	for _, hp := range b.Honest {
+		if hp.Conn() != nil {
+			hp.AnnounceHeaders(ext...)
+		}
+	}
+}
+
 // AwaitTip waits until the client reports n as its best block (block and
 // filter headers). It returns (true, "") on success; otherwise whether the
 // client's state was still changing during the last third of the deadline.
